@@ -215,9 +215,10 @@ Proof. exact divexact_q_l_ex. Qed.
 (* ------------------------------------------------------------------ euclidean division *)
 Lemma divmod_I_eucl : Eucl_divmod anyZ divmod_I.
 Proof.
-  intros n d _ Hd. split; [|exact I]. unfold divmod_I, mpz_tdiv_qr.
-  destruct (tspec n d Hd) as (E & B & S). unfold tquo, trem in *.
-  destruct (Z.ltb_spec (Z.rem n d) 0); [destruct (Z.ltb_spec 0 d)|]; cbn [fst snd]; unfold is_eucl; lia.
+  intros n d _ Hd. split; [|exact I]. unfold divmod_I, mpz_fdiv_qr, mpz_cdiv_qr, mpz_cdiv_q, mpz_cdiv_r.
+  destruct (Z.ltb_spec 0 d); cbn [fst snd].
+  - destruct (fspec n d Hd) as (E & B & S). unfold fquo, frem in *. unfold is_eucl. split; [exact E|]. split; nia.
+  - destruct (cspec n d Hd) as (E & B & S). unfold cquo, crem in *. unfold is_eucl. split; [exact E|]. split; nia.
 Qed.
 
 Lemma divmod_ul_eucl : Eucl_divmod in_u64 divmod_ul.
